@@ -37,10 +37,10 @@ SIG = {
     "ed_neg_def": "P", "ed_mul_one": "P", "ed_mul_mul": "iiP", "ed_mul_O": "i", "ed_neg_O": "", "ed_insub_neg": "P",
     "ed_same_y": "PP", "ed_xrecover_complete": "iP", "ed_enc_injective": "PP",
     "voc_O_coords": "", "voc_coords_range": "P", "voc_valid_reduced": "iiii", "voc_B_def": "", "voc_point_on_curve": "P",
-    "voc_point_aff": "P", "voc_point_ext": "PP", "voc_aff_O": "",
+    "voc_point_aff": "P", "voc_point_ext": "PP", "voc_aff_O": "", "voc_valid_def": "iiii", "voc_valid3_def": "iii", "voc_pt_affine": "iii",
 }
 COORD = {"ed_same_y", "ed_ladder_diff", "ed_xrecover_complete", "ed_enc_injective", "voc_O_coords", "voc_coords_range", "voc_valid_reduced",
-         "voc_B_def", "voc_point_on_curve", "voc_point_aff", "voc_point_ext", "voc_aff_O"}      # need the concrete curve (G := Curve)
+         "voc_B_def", "voc_point_on_curve", "voc_point_aff", "voc_point_ext", "voc_aff_O", "voc_valid_def", "voc_valid3_def", "voc_pt_affine"}      # need the concrete curve (G := Curve)
 VARNAMES = {"i": ["a", "b", "c", "e"], "P": ["P", "R", "T"], "E": ["G0", "M", "N"], "g": ["gid"]}
 
 
@@ -64,6 +64,10 @@ def to_lean(e, names, coord):
             return "((Lc : ℤ) - 1)"
         if v == E.Q:
             return "(Q : ℤ)"
+        if v == E.Q - 2:
+            return "((Q : ℤ) - 2)"
+        if E.D[0] is not None and v == E.D[0]:
+            return "spake_d"
         return _lit(v)
     if z3.is_const(e) and e.decl().kind() == z3.Z3_OP_UNINTERPRETED:
         n = e.decl().name()
@@ -338,6 +342,12 @@ def contract_statements(repo=None):
 def generate():
     """the generated statements, split in the part that needs only Algebra.lean and the part that needs the Edwards text"""
     from . import spec_ed as E
+    if E.D[0] is None:
+        # the module's own (unreduced) curve constant d, as the verifier reads it; printed as `spake_d`
+        from .repo import oracle, Oracle
+        r = oracle().req(op="global", module="spake2.ed25519_basic", name="d")
+        if r.get("ok"):
+            E.D[0] = Oracle.dec(r["value"])
     hdr = "-- GENERATED on every run by pyvc/leanbridge.py from the lemma schemas of pyvc/theory.py (the z3 instances, printed); do not edit\n"
     hdr += "def Lc : ℕ := %d\n\nnamespace Bridge\n" % E.L
     abstract, coord, errors = "", "", {}
